@@ -13,15 +13,25 @@ SpecialAt(j) == Msg([data |-> BytesToHex(Special[j])], "special")
 BigLens == IF Thorough THEN <<9999, 10000, 10001, 99999, 100000, 100001, 999999, 1000000, 1000001>>
            ELSE <<9999, 10000, 10001, 99999, 100000, 100001>>
 BigAt(j) == Msg([big |-> [rep |-> BigLens[j], pat |-> "5a"]], "big")
+\* histories (one thread): short messages before and after a message larger than 2^24 / 2^25 bytes
+BigHistSizes == <<16781313, 33554433>>
+NBigHist == IF Thorough THEN 2 ELSE 1
+BigHistAt(j) ==
+  LET small(k) == [op |-> "message", in |-> [data |-> BytesToHex([i \in 1..(5 + k) |-> (i * 13 + k) % 256])]]
+      big      == [op |-> "message", in |-> [big |-> [rep |-> BigHistSizes[j], pat |-> "c3"]]]
+  IN  [i |-> 0, op |-> "seq", fam |-> "history_with_huge_message", in |-> [steps |-> <<small(1), big, small(2), small(1), big, small(3)>>]]
 O1 == Lmax + 1
 O2 == O1 + 256
 O3 == O2 + Len(Special)
-Count == O3 + Len(BigLens)
+O4 == O3 + Len(BigLens)
+Count == O4 + NBigHist
 ItemAt(g) ==
   IF g <= O1 THEN LenAt(g)
   ELSE IF g <= O2 THEN ByteAt(g - O1)
   ELSE IF g <= O3 THEN SpecialAt(g - O2)
-  ELSE BigAt(g - O3)
+  ELSE IF g <= O4 THEN BigAt(g - O3)
+  ELSE BigHistAt(g - O4)
+Histories == IF "VERIF_TIER" \in DOMAIN IOEnv /\ IOEnv.VERIF_TIER = "thorough" THEN 300 ELSE 40
 VARIABLE n
 INSTANCE GenBase
 =============================================================================
